@@ -66,3 +66,15 @@ CHECKS["C05"] = {
 }
 
 NOT_APPLICABLE = {}
+
+CHECKS["C06"] = {
+    "engine": "SCHED",
+    "design_ref": "§3 C06, §2.1-2.3",
+    "technique": "deviation-bounded exhaustive schedule exploration of the real ClientSession/connector/ResponseHandler against stamping scripted peers",
+    "text": "About 120 histories of 2-3 requests (sequential and concurrent, GET/POST, four read modes) x 19 peer behaviours (surplus bytes in the same or a later segment, "
+            "unsolicited/partial/garbage bytes while idle, late 1xx, truncation, close, close-delimited) x a 7-point connection-key lattice run a real ClientSession on the "
+            "in-memory wire; every schedule with at most d deviations (when the peer answers, how its bytes are cut, when stray bytes / FIN / reset arrive relative to release and "
+            "re-acquisition, cancel) is executed.  Peers stamp each response with the id read from the request line on that connection: a caller never sees another stamp, a "
+            "connection that saw stray bytes / FIN / reset is never handed out again, and keys never share a transport.",
+    "note": TRUST + " d=2 quick, 3 thorough. Stray bytes that reach the client only after the next request already owns the connection are indistinguishable from its answer and are not counted.",
+}
